@@ -330,12 +330,17 @@ func cloneTree(v any) any {
 	}
 }
 
+// sameMap reports whether a and b are the same map (identity, not equality).
+func sameMap(a, b map[string]any) bool {
+	return reflect.ValueOf(a).Pointer() == reflect.ValueOf(b).Pointer()
+}
+
 // containsMap reports whether the map target itself (by identity, not by
 // value) is v or lies somewhere inside v.
 func containsMap(v any, target map[string]any) bool {
 	switch v2 := v.(type) {
 	case map[string]any:
-		if reflect.ValueOf(v2).Pointer() == reflect.ValueOf(target).Pointer() {
+		if sameMap(v2, target) {
 			return true
 		}
 
